@@ -125,6 +125,27 @@ func causeOf(ans string, cancelled bool) string {
 	return "other-error"
 }
 
+// knownSubmitPair: the (in-process status, proxied status) pair each recorded finding is about (known-findings.json
+// names the same pair).  A classification difference gets the recorded signature `…/submit/<cause>` ONLY for exactly
+// that pair; the same cause with any other pair is a different violation and says so in its signature.
+var knownSubmitPair = map[string][2]string{
+	"ErrTxTimedOut":                  {"notincluded", "error"},
+	"ErrTxAlreadyInMempool":          {"inmempool", "error"},
+	"ErrBlobSizeOverLimit":           {"toobig", "error"},
+	"ErrTxIncorrectAccountSequence":  {"badseq", "error"},
+	"ErrContextDeadline":             {"deadline", "error"},
+	"ErrContextCanceled":             {"error", "canceled"},
+	"text-contains-context-canceled": {"error", "canceled"},
+}
+
+func submitDiffSignature(cause string, direct, proxied coreda.StatusCode) string {
+	d, p := statusName(direct), statusName(proxied)
+	if pair, ok := knownSubmitPair[cause]; ok && (pair[0] != d || pair[1] != p) {
+		return "C16/classification-differs/submit/" + cause + "/unexpected-pair-" + d + "-" + p
+	}
+	return "C16/classification-differs/submit/" + cause
+}
+
 func eqBytesList(a, b [][]byte) bool {
 	if len(a) != len(b) {
 		return false
@@ -291,9 +312,9 @@ func (r *runner) judge(sc *subCase) {
 		return // nothing to submit: the client answers without a call, so a scripted failure / the cancelled context is never consulted
 	}
 	if ref.Code != pres.Code {
-		c.Report("C16/classification-differs/submit/"+cause, fmt.Sprintf("%ssubmit: in-process %s, through the proxy %s (backing DA answers %q)", sc.who, statusName(ref.Code), statusName(pres.Code), ans))
-		return
+		c.Report(submitDiffSignature(cause, ref.Code, pres.Code), fmt.Sprintf("%ssubmit: in-process %s, through the proxy %s (backing DA answers %q)", sc.who, statusName(ref.Code), statusName(pres.Code), ans))
 	}
+	// (no early return: counts, ids and height are compared whatever the classification)
 	if ref.SubmittedCount != pres.SubmittedCount || !eqBytesList(ref.IDs, pres.IDs) || ref.Height != pres.Height {
 		c.Report("C16/result-differs/submit", fmt.Sprintf("%ssubmit: in-process count=%d ids=%d height=%d, proxied count=%d ids=%d height=%d", sc.who, ref.SubmittedCount, len(ref.IDs), ref.Height, pres.SubmittedCount, len(pres.IDs), pres.Height))
 	}
@@ -605,8 +626,9 @@ func (r *runner) xsubmit(o hx.Op) {
 		ref = r.midCall(r.fx.back, expSent, h, mid)
 	}
 	if ref.res.Code != p.res.Code {
-		c.Report("C16/classification-differs/submit/"+cause, fmt.Sprintf("submit, %s: the caller is told %s in-process and %s through the proxy", cause, statusName(ref.res.Code), statusName(p.res.Code)))
-	} else if ref.res.SubmittedCount != p.res.SubmittedCount || !eqBytesList(ref.res.IDs, p.res.IDs) || ref.res.Height != p.res.Height {
+		c.Report(submitDiffSignature(cause, ref.res.Code, p.res.Code), fmt.Sprintf("submit, %s: the caller is told %s in-process and %s through the proxy", cause, statusName(ref.res.Code), statusName(p.res.Code)))
+	}
+	if ref.res.SubmittedCount != p.res.SubmittedCount || !eqBytesList(ref.res.IDs, p.res.IDs) || ref.res.Height != p.res.Height {
 		c.Report("C16/result-differs/submit", fmt.Sprintf("submit, %s: in-process count=%d ids=%d height=%d, proxied count=%d ids=%d height=%d", cause, ref.res.SubmittedCount, len(ref.res.IDs), ref.res.Height, p.res.SubmittedCount, len(p.res.IDs), p.res.Height))
 	}
 	if p.res.SubmittedCount > uint64(len(p.got)) {
@@ -676,11 +698,16 @@ func (r *runner) retrieve(o hx.Op) {
 		cause = "get-" + causeOf(get, false)
 	}
 	if dres.Code != pres.Code {
-		c.Report("C16/classification-differs/retrieve/"+cause, fmt.Sprintf("retrieve: in-process %s, through the proxy %s (GetIDs answers %q, Get answers %q)", statusName(dres.Code), statusName(pres.Code), ids, get))
-		return
+		c.Report("C16/classification-differs/retrieve/"+cause+"/"+statusName(dres.Code)+"-"+statusName(pres.Code), fmt.Sprintf("retrieve: in-process %s, through the proxy %s (GetIDs answers %q, Get answers %q)", statusName(dres.Code), statusName(pres.Code), ids, get))
+		// (no early return: the remaining comparisons run whatever the classification)
 	}
 	if futureFlag(dres) != futureFlag(pres) {
-		c.Report("C16/classification-differs/retrieve-future-text/"+cause, "the 'given height is from the future' text that block/retriever.go matches on is present on one side only")
+		// the recorded finding: both sides StatusError, the text present in-process and gone behind the proxy
+		sig := "C16/classification-differs/retrieve-future-text/" + cause
+		if !(futureFlag(dres) == 1 && futureFlag(pres) == 0 && dres.Code == coreda.StatusError && pres.Code == coreda.StatusError) {
+			sig += fmt.Sprintf("/unexpected-%s:%d-%s:%d", statusName(dres.Code), futureFlag(dres), statusName(pres.Code), futureFlag(pres))
+		}
+		c.Report(sig, fmt.Sprintf("the 'given height is from the future' text that block/retriever.go matches on: in-process %s/present=%d, proxied %s/present=%d", statusName(dres.Code), futureFlag(dres), statusName(pres.Code), futureFlag(pres)))
 	}
 	if !cancelled && (ids == "nil" || (ids == "ok" && n == 0)) {
 		c.Hit("retrieve/empty-ids")
